@@ -7,14 +7,21 @@ obligations `cfg_sound_<name>` (JF/Gen/WiringsSound.lean) contain clause (h) for
 
 Correspondence: the same activator replay as C09 (bit-exact on handler ids, order, trash lists), the translator self-check, the
 declared motion footprint of every handler kind against what each recorded commit did to velocities/trajectories, and clause (h)
-evaluated on every recorded commit.  Oracle: `runs.oracle_c08` on every trace (+ extra runs of a configuration whose obligation broke)."""
-from harness import runs
+evaluated on every recorded commit.  Oracle: `runs.oracle_c08` on every trace (+ extra runs of a configuration whose obligation broke).
+
+Composition (lean/JF/Props/MediatorLoop.lean, model lean/JF/Model/Mediator.lean, driver `jf_med`, `harness/medcorr.py`): the loop of
+`SingleProcessMediator.run` as one machine (activator model x scheduler instance x preceding handler); theorems for all legs of all
+runs (scheduler mirrors the running lists, the committed handler is a running one and minimal, trashed handlers are never committed
+unless handed out again = C08's second sentence end to end, commit times sorted, list/heap loop refines the spec-level loop);
+every recorded leg of every single-process trace is replayed in the composed model, and the cross-invariant "live events of the
+real scheduler = current candidates of the real activator's running handlers" is evaluated on the implementation."""
+from harness import runs, medcorr
 from harness.props import c09
 
 ID = "C08"
 NEEDS_GEN = True
-THEOREM_MODULES = ["JF.Props.C08", "JF.Gen.WiringsSound"]
-COMPONENTS = ["act"]
+THEOREM_MODULES = ["JF.Props.C08", "JF.Props.MediatorLoop", "JF.Gen.WiringsSound"]
+COMPONENTS = ["act", "med"]
 ASSUMPTIONS = [
     "which handler kinds may change the motion of a unit (`affects · .motion` in JF/Model/Wiring.lean) is a hypothesis of the theorem; "
     "it is compared with what every recorded commit did (velocity equal and position on the old straight line within 1e-11 L)",
@@ -25,4 +32,5 @@ TRUSTED = c09.TRUSTED
 
 
 def run(ctx):
-    c09.run(ctx, which="C08", oracle=runs.oracle_c08)
+    c09.run(ctx, which="C08", oracle=runs.oracle_c08, per_trace=medcorr.replay)
+    medcorr.resumed_check(ctx)
